@@ -399,12 +399,36 @@ def column_rule(ctx, chk):
             for bi, t in M.calls_in(f):
                 if not t[1].get("local") or len(t[2]) != 2:
                     continue
-                if (t[3].get("ty") or "").replace(" ", "") != "(usize,usize,usize)" or (t[2][1][1].get("ty") if t[2][1][0] != "const" else "usize") != "usize":
+                if (t[2][1][1].get("ty") if t[2][1][0] != "const" else "usize") != "usize":
                     continue
-                calls.append((bi, t))
+                rty = (t[3].get("ty") or "").replace(" ", "")
+                roles_by_field = None
+                if rty == "(usize,usize,usize)":
+                    roles_by_field = {0: "line", 1: "start", 2: "end"}
+                else:
+                    # a local struct of positions with fields named for their roles (`LinePos { line, start, end }`)
+                    adt = next((a for a in m["adts"] + (ctx.facts.mir("lib")["adts"] if which == "bin" else []) if a["name"].split("::")[-1] == rty.split("::")[-1] and a.get("variants")), None)
+                    if adt is not None and len(adt["variants"]) == 1:
+                        fl = adt["variants"][0]["fields"]
+                        rb = {}
+                        for i_, fd in enumerate(fl):
+                            nm = (fd[0] if isinstance(fd, (list, tuple)) else str(fd)).lower()
+                            if (fd[1] if isinstance(fd, (list, tuple)) else "usize") != "usize":
+                                continue
+                            if "start" in nm or "begin" in nm:
+                                rb[i_] = "start"
+                            elif "end" in nm:
+                                rb[i_] = "end"
+                            elif "line" in nm or "row" in nm:
+                                rb[i_] = "line"
+                        if "start" in rb.values() and "end" in rb.values():
+                            roles_by_field = rb
+                if roles_by_field is None:
+                    continue
+                calls.append((bi, t, roles_by_field))
             if not calls:
                 continue
-            for bi, t in calls:
+            for bi, t, roles_by_field in calls:
                 res = t[3]["l"]
                 tags = {}   # local -> set of roles ("pos", "line", "start", "end"); a pointer to a tagged value carries the tag
 
@@ -448,7 +472,7 @@ def column_rule(ctx, chk):
                         if src is None:
                             continue
                         if src == res and len(proj) == 1 and isinstance(proj[0], list) and proj[0][0] == "f":
-                            if add(dst["l"], ("line", "start", "end")[proj[0][1]] if proj[0][1] < 3 else "?"):
+                            if add(dst["l"], roles_by_field.get(proj[0][1], "?")):
                                 changed = True
                         elif all(x == "deref" for x in proj):
                             for r in list(tags.get(src, ())):
@@ -485,6 +509,9 @@ def column_rule(ctx, chk):
                                       f"this value is the distance to the {'end' if 'end' in pair else 'start'} of the line" +
                                       (" and underflows for a token that is not first in its line" if pair == ("start", "pos") else ""), f"{file}:{line}")
     chk.extra["columns"] = n
+    if n == 0:
+        chk.undecided_("C16.R9", "line-lookup", "no subtraction between a position and the results of a line lookup `(&T, usize) -> (usize, usize, usize)` (or a struct with "
+                       "start/end fields) found: columns are computed in a form this rule does not follow")
 
 
 def recorded_position_rule(ctx, chk, GA, E):
